@@ -13,6 +13,9 @@ UNK_CBC = 'foo256-cbc'
 UNK_ETM = 'hmac-foo-etm@openssh.com'
 UNK_CBC_LONG = 'vendor-' + 'x' * 70 + '-cbc'                      # longer than the 64 characters RFC 4251 allows a name
 UNK_ETM_LONG = 'hmac-' + 'y' * 70 + '-etm@openssh.com'
+NEAR_ENC = ['des', '3des-ctr', 'none', 'arcfour', '', 'cbc', 'ssh1', 'des-', 'aes128-cbcx', 'cbc-aes128', 'aes128cbc', 'chacha20', 'poly1305', 'xchacha20-poly1305@openssh.com',
+            'liu.se', '-', 'aes128-ctr']
+NEAR_MAC = ['etm', 'hmac-sha2-256-etm', 'etm@openssh.com', 'hmac-sha2-256etm@openssh.com', '', 'openssh.com', 'hmac-sha2-256', 'hmac-etm']
 MARK_S = 'kex-strict-s-v00@openssh.com'
 MARK_C = 'kex-strict-c-v00@openssh.com'
 
@@ -62,6 +65,17 @@ def cases(tier):
         for marker in ('none', 'own'):
             for shape in ('etm-own-only', 'etm-other-only', 'cbc-own-only', 'cbc-other-only', 'chacha-own-only', 'chacha-other-only', 'cbc-own+etm-other', 'cbc-other+etm-own'):
                 out.append((role, marker, (), (), (), 'asym:' + shape))
+    # near misses: names that are NOT ChaCha20-Poly1305 / CBC-mode / encrypt-then-MAC but look like fragments, prefixes or relatives of
+    # names that are (database names such as 'des' and '3des-ctr' among them, and the empty name), standing where the real thing would
+    for role in ('server', 'client'):
+        for marker in ('none', 'own'):
+            for near in NEAR_ENC:
+                out.append((role, marker, (), (near,), (db_etm[0],), 'nearmiss'))
+                out.append((role, marker, (), (near,), (), 'nearmiss'))
+                out.append((role, marker, (near,), (), (db_etm[0],), 'nearmiss'))
+            for near in NEAR_MAC:
+                out.append((role, marker, (), (db_cbc[0],), (near,), 'nearmiss'))
+                out.append((role, marker, (dch,), (), (near,), 'nearmiss'))
     # long lists: the relevant name behind N other names, N on both sides of 50, 64, 128 and 255
     for role in ('server', 'client'):
         for marker in ('none', 'own'):
@@ -71,7 +85,7 @@ def cases(tier):
     return out
 
 
-CTX_BANNER = {'default': b'SSH-2.0-OpenSSH_9.6', 'mixed': b'SSH-2.0-OpenSSH_9.6', 'hangup': b'SSH-2.0-OpenSSH_9.6', 'unrecognised': b'SSH-2.0-AcmeSSH_1.0', 'flawless': b'SSH-2.0-OpenSSH_9.6'}
+CTX_BANNER = {'default': b'SSH-2.0-OpenSSH_9.6', 'mixed': b'SSH-2.0-OpenSSH_9.6', 'nearmiss': b'SSH-2.0-OpenSSH_9.6', 'hangup': b'SSH-2.0-OpenSSH_9.6', 'unrecognised': b'SSH-2.0-AcmeSSH_1.0', 'flawless': b'SSH-2.0-OpenSSH_9.6'}
 
 
 def banner_of(case):
